@@ -77,7 +77,7 @@ Definition pstart (c : cfg) (s : st) : Z := tau c s.
 Lemma produce_now : forall c s b, now (produce c s b) = tau c s + pdur c s.
 Proof. reflexivity. Qed.
 Lemma produce_lz : forall c s b,
-  lz (produce c s b) = if c_lazy c then tau c s + pdur c s + remaining (pdur c s) (eff_idle c) else lz s.
+  lz (produce c s b) = if c_lazy c then tau c s + pdur c s + remaining (pdur c s) (eff_li c) else lz s.
 Proof. reflexivity. Qed.
 Lemma produce_bk : forall c s b,
   bk (produce c s b) = tau c s + pdur c s + remaining (pdur c s) (eff_bt c).
@@ -132,7 +132,7 @@ Proof.
   pose proof (pdur_nonneg c s) as Hd.
   constructor.
   - intros Hl. rewrite produce_now, produce_lz, Hl.
-    pose proof (remaining_pos (pdur c s) (eff_idle c)). lia.
+    pose proof (remaining_pos (pdur c s) (eff_li c)). lia.
   - rewrite produce_now, produce_bk. pose proof (remaining_pos (pdur c s) (eff_bt c)). lia.
   - rewrite produce_now, produce_pend. apply filter_gt.
   - rewrite produce_pend. apply filter_sorted, Hg.
@@ -144,7 +144,7 @@ Lemma G_step : forall c s ch s', G c s -> step c s ch = Some s' -> G c s'.
 Proof.
   intros c s ch s' Hg Hs.
   pose proof (tau_bounds c s Hg) as (Ht1 & Ht2 & Ht3 & Ht4 & Ht5).
-  destruct Hg as [Hlz Hbk Hp Hso HW]. unfold step, step_with in Hs. destruct ch.
+  destruct Hg as [Hlz Hbk Hp Hso HW]. unfold step in Hs. destruct ch.
   - (* CEnv *)
     destruct (pend s) as [|h r] eqn:E; [discriminate|].
     destruct (Z.eqb_spec h (tau c s)) as [Eh|]; [|discriminate].
@@ -200,9 +200,9 @@ Qed.
 
 Lemma run_steps : forall c chs s s', run c s chs = Some s' -> steps c s s'.
 Proof.
-  intros c chs; unfold run; induction chs as [|ch r IH]; simpl; intros s s' H.
+  intros c chs; induction chs as [|ch r IH]; simpl; intros s s' H.
   - inversion H; constructor.
-  - destruct (step_with (eff_idle c) c s ch) as [s1|] eqn:E; [|discriminate].
+  - destruct (step c s ch) as [s1|] eqn:E; [|discriminate].
     eapply steps_step; [exact E | apply IH; exact H].
 Qed.
 
@@ -213,7 +213,7 @@ Proof. intros. eapply reach_steps; [constructor | eapply run_steps; eassumption]
 Lemma step_now_mono : forall c s ch s', G c s -> step c s ch = Some s' -> now s <= now s'.
 Proof.
   intros c s ch s' Hg Hs. pose proof (tau_bounds c s Hg) as (Ht1 & _).
-  unfold step, step_with in Hs. destruct ch.
+  unfold step in Hs. destruct ch.
   - destruct (pend s); [discriminate|]. destruct (z =? tau c s); [|discriminate].
     inversion Hs; subst; simpl; lia.
   - destruct (chan s); [|discriminate]. inversion Hs; subst; simpl; lia.
@@ -228,7 +228,7 @@ Lemma step_prods : forall c s ch s', step c s ch = Some s' ->
   (produces c s ch = false /\ prods s' = prods s) \/
   (produces c s ch = true /\ s' = produce c s (match ch with CBlock => true | _ => false end)).
 Proof.
-  intros c s ch s' Hs. unfold step, step_with in Hs. destruct ch; simpl.
+  intros c s ch s' Hs. unfold step in Hs. destruct ch; simpl.
   - destruct (pend s); [discriminate|]. destruct (z =? tau c s); [|discriminate].
     inversion Hs; subst; left; auto.
   - destruct (chan s); [|discriminate]. inversion Hs; subst; left; auto.
@@ -241,7 +241,7 @@ Qed.
 Lemma produces_at : forall c s ch s', step c s ch = Some s' -> produces c s ch = true ->
   (ch = CLazy /\ c_lazy c = true /\ lz s = tau c s) \/ (ch = CBlock /\ bk s = tau c s).
 Proof.
-  intros c s ch s' Hs Hp. unfold step, step_with in Hs. destruct ch; simpl in Hp; try discriminate.
+  intros c s ch s' Hs Hp. unfold step in Hs. destruct ch; simpl in Hp; try discriminate.
   - left. destruct (c_lazy c); [|discriminate]. simpl in Hs.
     destruct (Z.eqb_spec (lz s) (tau c s)); [auto|discriminate].
   - right. destruct (Z.eqb_spec (bk s) (tau c s)); [auto|discriminate].
@@ -256,16 +256,16 @@ Definition Rinv (c : cfg) (s : st) : Prop :=
   | [] => True
   end.
 
-Lemma Rinv_step : forall c s ch s',
+Lemma Rinv_step : forall c s ch s', rate_guard c = true ->
   G c s -> Rinv c s -> step c s ch = Some s' -> Rinv c s'.
 Proof.
-  intros c s ch s' Hg [Hgap Hhd] Hs.
+  intros c s ch s' Hguard Hg [Hgap Hhd] Hs.
   pose proof (tau_bounds c s Hg) as (Ht1 & Ht2 & Ht3 & _ & _).
   destruct (step_prods c s ch s' Hs) as [[Hnp Hpr]|[Hp ->]].
   - (* no production: prods unchanged; lz unchanged; bk unchanged or pushed later *)
     unfold Rinv. rewrite Hpr. split; [assumption|].
     destruct (prods s) as [|p r]; [exact I|]. destruct Hhd as [Hb Hl].
-    unfold step, step_with in Hs. destruct ch; simpl in Hnp; try discriminate.
+    unfold step in Hs. destruct ch; simpl in Hnp; try discriminate.
     + destruct (pend s); [discriminate|]. destruct (z =? tau c s); [|discriminate].
       inversion Hs; subst; simpl; auto.
     + destruct (chan s); [|discriminate]. inversion Hs; subst; simpl; auto.
@@ -276,23 +276,26 @@ Proof.
     pose proof (produces_at c s ch _ Hs Hp) as Hat.
     unfold Rinv. rewrite produce_prods, produce_bk, produce_lz.
     pose proof (remaining_ge (pdur c s) (eff_bt c)) as Hrb.
-    pose proof (remaining_ge (pdur c s) (eff_idle c)) as Hrl.
-    assert (Hli : eff_bt c <= eff_idle c) by (unfold eff_idle; lia).
+    pose proof (remaining_ge (pdur c s) (eff_li c)) as Hrl.
+    assert (Hli : c_lazy c = true -> eff_bt c <= eff_li c).
+    { intros Hl. unfold rate_guard in Hguard. rewrite Hl in Hguard. simpl in Hguard.
+      apply Z.leb_le; assumption. }
     split.
     + destruct (prods s) as [|p r] eqn:E; [exact I|]. destruct Hhd as [Hb Hl].
       simpl. split; [|exact Hgap]. simpl.
       destruct Hat as [(_ & Hlazy & El)|(_ & Eb)]; [specialize (Hl Hlazy)|]; lia.
-    + simpl. split; [lia|]. intros Hl. rewrite Hl. lia.
+    + simpl. split; [lia|]. intros Hl. rewrite Hl. specialize (Hli Hl). lia.
 Qed.
 
-Lemma rate_invariant : forall c ns s, reach c ns s -> Rinv c s.
+Lemma rate_invariant : forall c ns s, rate_guard c = true -> reach c ns s -> Rinv c s.
 Proof.
-  intros c ns s Hr. induction Hr.
+  intros c ns s Hguard Hr. induction Hr.
   - split; simpl; exact I.
   - eapply Rinv_step; eauto using G_reach.
 Qed.
 
-Lemma rate_full : forall c ns s, reach c ns s -> gaps_ge (eff_bt c) (prods s).
+Lemma rate_partial : forall c ns s, rate_guard c = true -> reach c ns s ->
+  gaps_ge (eff_bt c) (prods s).
 Proof. intros; eapply rate_invariant; eassumption. Qed.
 
 Lemma gaps_geb_spec : forall b l, gaps_geb b l = true <-> gaps_ge b l.
@@ -302,29 +305,32 @@ Proof.
   rewrite andb_true_iff, Z.leb_le, IH. tauto.
 Qed.
 
-(* before the repair (lazy timer re-armed with the configured lazy interval alone): lazy interval 1 s
-   below the block time 2 s, no notification, instantaneous productions: the lazy timer fired at 0 and
-   at 1 s, i.e. two productions closer together than one block time.  The same schedule is not even
-   enabled in the repaired loop, whose productions are at 0 and 2 s. *)
+(* the witness: lazy interval 1 s below the block time 2 s, no notification, instantaneous productions:
+   the lazy timer fires at 0 and at 1 s *)
 Definition refute_cfg : cfg :=
   {| c_lazy := true; c_bt := 2000 * ms; c_li := 1000 * ms; c_gen := -2000 * ms; c_durs := []; c_ddef := 0 |}.
 
-Lemma before_the_repair_rate_broken :
-  exists s, run_with (eff_li refute_cfg) refute_cfg (init refute_cfg []) [CLazy; CLazy] = Some s /\
-            prods s = [(1000 * ms, 0); (0, 0)] /\ eff_bt refute_cfg = 2000 * ms /\
-            gaps_geb (eff_bt refute_cfg) (prods s) = false.
-Proof. vm_compute. eexists. repeat split; reflexivity. Qed.
+Lemma rate_refuted :
+  ~ (forall c ns s, reach c ns s -> gaps_ge (eff_bt c) (prods s)).
+Proof.
+  intros H.
+  destruct (run refute_cfg (init refute_cfg []) [CLazy; CLazy]) as [s|] eqn:E; [|vm_compute in E; discriminate].
+  specialize (H refute_cfg [] s (run_reach _ _ _ _ E)).
+  apply gaps_geb_spec in H. vm_compute in E. inversion E; subst s. vm_compute in H. discriminate.
+Qed.
 
-Lemma after_the_repair_same_config :
-  run refute_cfg (init refute_cfg []) [CLazy; CLazy] = None /\
-  exists s, run refute_cfg (init refute_cfg []) [CLazy; CBlock; CLazy] = Some s /\
-            prods s = [(2000 * ms, 0); (0, 0)].
-Proof. vm_compute. split; [reflexivity|]. eexists. split; reflexivity. Qed.
+(* the same witness read off as numbers: two productions 1 s apart, block time 2 s *)
+Lemma rate_refuted_trace :
+  exists s, reach refute_cfg [] s /\ prods s = [(1000 * ms, 0); (0, 0)] /\ eff_bt refute_cfg = 2000 * ms.
+Proof.
+  destruct (run refute_cfg (init refute_cfg []) [CLazy; CLazy]) as [s|] eqn:E; [|vm_compute in E; discriminate].
+  exists s. split; [eapply run_reach; exact E|]. vm_compute in E. inversion E; subst s. split; reflexivity.
+Qed.
 
 (* ---- idle interval ---------------------------------------------------------------------------------- *)
 
 Definition Iinv (c : cfg) (s : st) : Prop :=
-  chain_le (eff_idle c) (prods s) /\ lz s = armed (eff_idle c) (t0 c) (prods s).
+  chain_le (eff_li c) (prods s) /\ lz s = armed (eff_li c) (t0 c) (prods s).
 
 Lemma next_fire_pair : forall i t d, next_fire i (t, d) = t + d + remaining d i.
 Proof. reflexivity. Qed.
@@ -336,7 +342,7 @@ Proof.
   pose proof (tau_bounds c s Hg) as (Ht1 & Ht2 & Ht3 & _ & _). specialize (Ht3 Hl).
   destruct (step_prods c s ch s' Hs) as [[Hnp Hpr]|[Hp ->]].
   - unfold Iinv. rewrite Hpr. split; [assumption|]. rewrite <- Hlz.
-    unfold step, step_with in Hs. destruct ch; simpl in Hnp; try discriminate.
+    unfold step in Hs. destruct ch; simpl in Hnp; try discriminate.
     + destruct (pend s); [discriminate|]. destruct (z =? tau c s); [|discriminate].
       inversion Hs; subst; reflexivity.
     + destruct (chan s); [|discriminate]. inversion Hs; subst; reflexivity.
@@ -349,7 +355,7 @@ Proof.
 Qed.
 
 Lemma idle_upper : forall c ns s, c_lazy c = true -> reach c ns s ->
-  chain_le (eff_idle c) (prods s) /\ now s <= armed (eff_idle c) (t0 c) (prods s).
+  chain_le (eff_li c) (prods s) /\ now s <= armed (eff_li c) (t0 c) (prods s).
 Proof.
   intros c ns s Hl Hr.
   assert (Hi : Iinv c s).
@@ -362,13 +368,13 @@ Qed.
 (* no notification at all: productions are exactly the lazy-timer chain *)
 Definition Qinv (c : cfg) (s : st) : Prop :=
   pend s = [] /\ chan s = false /\ avail s = false /\
-  chain (eff_idle c) (t0 c) (prods s) /\ lz s = armed (eff_idle c) (t0 c) (prods s).
+  chain (eff_li c) (t0 c) (prods s) /\ lz s = armed (eff_li c) (t0 c) (prods s).
 
 Lemma Qinv_step : forall c s ch s', c_lazy c = true ->
   Qinv c s -> step c s ch = Some s' -> Qinv c s'.
 Proof.
   intros c s ch s' Hl (Hp & Hc & Ha & Hch & Hlz) Hs.
-  unfold step, step_with in Hs. rewrite Hl, Hp, Hc, Ha in Hs. simpl in Hs. destruct ch; try discriminate.
+  unfold step in Hs. rewrite Hl, Hp, Hc, Ha in Hs. simpl in Hs. destruct ch; try discriminate.
   - (* CLazy *)
     destruct (Z.eqb_spec (lz s) (tau c s)) as [El|]; [|discriminate].
     inversion Hs; subst s'; clear Hs. unfold Qinv.
@@ -383,7 +389,7 @@ Proof.
 Qed.
 
 Lemma idle_exact : forall c s, c_lazy c = true -> reach c [] s ->
-  chain (eff_idle c) (t0 c) (prods s) /\ now s <= armed (eff_idle c) (t0 c) (prods s).
+  chain (eff_li c) (t0 c) (prods s) /\ now s <= armed (eff_li c) (t0 c) (prods s).
 Proof.
   intros c s Hl Hr.
   assert (Hq : Qinv c s).
@@ -403,7 +409,7 @@ Lemma Ninv_step : forall c s ch s', c_lazy c = false ->
   Ninv c s -> step c s ch = Some s' -> Ninv c s'.
 Proof.
   intros c s ch s' Hl (Hch & Hbk) Hs.
-  unfold step, step_with in Hs. rewrite Hl in Hs. simpl in Hs. destruct ch; try discriminate.
+  unfold step in Hs. rewrite Hl in Hs. simpl in Hs. destruct ch; try discriminate.
   - destruct (pend s); [discriminate|]. destruct (z =? tau c s); [|discriminate].
     inversion Hs; subst; split; assumption.
   - destruct (chan s); [|discriminate]. inversion Hs; subst; split; assumption.
@@ -450,7 +456,7 @@ Proof.
   - destruct (step_prods c s ch s' Hs) as [[Hnp Hpr]|[Hp ->]].
     + (* no production *)
       exists new. rewrite Hpr. split; [assumption|]. right.
-      unfold step, step_with in Hs. destruct ch; simpl in Hnp; try discriminate.
+      unfold step in Hs. destruct ch; simpl in Hnp; try discriminate.
       * destruct (pend s); [discriminate|]. destruct (z =? tau c s); [|discriminate].
         inversion Hs; subst s'; clear Hs. unfold Qb; simpl. repeat split; try assumption.
         destruct Hq as [Ha|(Hc & Hq)]; [left; assumption|].
@@ -503,7 +509,7 @@ Proof.
   apply (response c (now s1 + W c) (now s1) s1 s2 Hl Hg1); auto.
   - split; [apply Hg1|]. right.
     assert (Hc : chan s1 = true).
-    { unfold step, step_with in Hs. destruct (pend s); [discriminate|]. destruct (z =? tau c s); [|discriminate].
+    { unfold step in Hs. destruct (pend s); [discriminate|]. destruct (z =? tau c s); [|discriminate].
       inversion Hs; reflexivity. }
     split; [assumption|]. right. unfold W. pose proof ms_pos. lia.
   - apply (G_lz c s1 Hg1 Hl).
@@ -526,14 +532,14 @@ Proof.
   assert (Hnow : now s1 = tau c s + pdur c s) by (rewrite E1; apply produce_now).
   assert (Hbk : bk s1 = next_fire (eff_bt c) (tau c s, pdur c s))
     by (rewrite E1, produce_bk, next_fire_pair; reflexivity).
-  assert (Hlz : lz s1 = tau c s + pdur c s + remaining (pdur c s) (eff_idle c))
+  assert (Hlz : lz s1 = tau c s + pdur c s + remaining (pdur c s) (eff_li c))
     by (rewrite E1, produce_lz, Hl; reflexivity).
   assert (Hprods : prods s1 = (tau c s, pdur c s) :: prods s) by (rewrite E1; apply produce_prods).
   assert (Hchan : chan s1 = true).
   { rewrite E1, produce_chan. destruct Hnot as [->|(x & Hin & Hx)]; [reflexivity|].
     apply orb_true_iff; right. apply existsb_exists. exists x. split; [assumption|]. apply Z.leb_le; assumption. }
   pose proof (remaining_pos (pdur c s) (eff_bt c)) as Hrb.
-  pose proof (remaining_pos (pdur c s) (eff_idle c)) as Hrl.
+  pose proof (remaining_pos (pdur c s) (eff_li c)) as Hrl.
   rewrite next_fire_pair in Hbk.
   destruct (response c (bk s1) (Z.min (lz s1) (bk s1)) s1 s2 Hl Hg1) as (new & p & Hnew & Hin & Hp1 & Hp2);
     try lia; auto.
@@ -556,7 +562,7 @@ Proof.
       * left. rewrite Hpr. split; [assumption|].
         pose proof (G_step c s ch s' Hg H) as Hg'. pose proof (step_now_mono c s ch s' Hg H).
         assert (lz s' = lz s).
-        { unfold step, step_with in H. destruct ch; simpl in Hnp; try discriminate.
+        { unfold step in H. destruct ch; simpl in Hnp; try discriminate.
           - destruct (pend s); [discriminate|]. destruct (z =? tau c s); [|discriminate]. inversion H; reflexivity.
           - destruct (chan s); [|discriminate]. inversion H; reflexivity.
           - destruct (bk s =? tau c s); [|discriminate]. destruct (c_lazy c && negb (avail s)); [|discriminate].
@@ -572,7 +578,7 @@ Qed.
 Lemma progress : forall c s, exists ch s', step c s ch = Some s'.
 Proof.
   intros c s. destruct (chan s) eqn:Ec.
-  - exists CRecv. unfold step, step_with. rewrite Ec. eauto.
+  - exists CRecv. unfold step. rewrite Ec. eauto.
   - assert (Ht : (tau c s = lz s /\ c_lazy c = true) \/ tau c s = bk s \/
                  exists h r, pend s = h :: r /\ tau c s = h).
     { unfold tau. rewrite Ec. destruct (c_lazy c); destruct (pend s) as [|h r].
@@ -584,8 +590,8 @@ Proof.
       - destruct (Z.min_spec (bk s) h) as [[_ E]|[_ E]]; rewrite E; auto.
         right; right; eauto. }
     destruct Ht as [[E El]|[E|(h & r & Ep & E)]].
-    + exists CLazy. unfold step, step_with. rewrite El, E, Z.eqb_refl. simpl. eauto.
-    + exists CBlock. unfold step, step_with. rewrite E, Z.eqb_refl.
+    + exists CLazy. unfold step. rewrite El, E, Z.eqb_refl. simpl. eauto.
+    + exists CBlock. unfold step. rewrite E, Z.eqb_refl.
       destruct (c_lazy c && negb (avail s)); eauto.
-    + exists CEnv. unfold step, step_with. rewrite Ep, E, Z.eqb_refl. eauto.
+    + exists CEnv. unfold step. rewrite Ep, E, Z.eqb_refl. eauto.
 Qed.
